@@ -2,6 +2,7 @@ package props
 
 import (
 	"fmt"
+	"io"
 	"reflect"
 	"testing"
 
@@ -183,6 +184,34 @@ func observe(v view, obs string) string {
 	}
 }
 
+// c15Templates are exported (option-less report, fixed templates) before and after the
+// history; results must not depend on what was exported in between.
+// The history-sensitive forms (empty, blank, a call of a template that only an earlier
+// export defined) come first, so that what they render would depend on the last export
+// made before the sweep if the library kept template state between exports.
+var c15Templates = []string{"", " ", "{{template \"x\" .Version}}", "{{.Vector}} {{.SeverityValue}} {{.BaseScore}}", "{{define \"x\"}}[{{.}}]{{end}}", "{{.Nope}}", "{{if .}}y{{end}}"}
+
+func exportAll(s subject) []string {
+	if s.ver != 3 {
+		return nil
+	}
+	ex, ok := s.reportOf("en").(exporter)
+	if !ok {
+		return nil
+	}
+	out := make([]string, len(c15Templates))
+	for i, tp := range c15Templates {
+		r, err := ex.ExportWithString(tp)
+		if err != nil {
+			out[i] = "error:" + errStr(err)
+			continue
+		}
+		b, _ := io.ReadAll(r)
+		out[i] = string(b)
+	}
+	return out
+}
+
 var checkC15 = register("C15/ops", func(c opsCase) string {
 	if (c.Ver != 2 && c.Ver != 3) || c.Level < 0 || c.Level > 2 {
 		return ""
@@ -207,6 +236,7 @@ var checkC15 = register("C15/ops", func(c opsCase) string {
 	pr0, _ := makeSubject(recipe)
 	pristine0 := pr0.snap() // a plain decode of the input before any history
 	defaultReport0 := pr0.reportDefault() // the option-less report before any history
+	exports0 := exportAll(pr0)            // template exports before any history
 	check := func(step int, o op) string {
 		tw := twin()
 		sa, st := a.snap(), tw.snap()
@@ -221,6 +251,9 @@ var checkC15 = register("C15/ops", func(c opsCase) string {
 				return fmt.Sprintf("after step %d (%+v) decoding the same input again gives a different object than before the history: %s", step, o, d)
 			}
 			if c.Ver == 3 {
+				if ex := exportAll(pr); !reflect.DeepEqual(ex, exports0) {
+					return fmt.Sprintf("after step %d (%+v) template exports of a fresh decode differ from the ones made before the history: %q vs %q", step, o, ex, exports0)
+				}
 				if rd := pr.reportDefault(); !reflect.DeepEqual(rd, defaultReport0) {
 					return fmt.Sprintf("after step %d (%+v) the option-less report of a fresh decode differs from the one built before the history: %+v vs %+v", step, o, rd, defaultReport0)
 				}
@@ -262,9 +295,7 @@ var checkC15 = register("C15/ops", func(c opsCase) string {
 					return fmt.Sprintf("step %d: two consecutive reports differ", i+1)
 				}
 				if ex, ok := r1.(exporter); ok {
-					rd, err := ex.ExportWithString("{{.Vector}} {{.SeverityValue}} {{.BaseScore}}")
-					_ = rd
-					_ = err
+					ex.ExportWithString(c15Templates[3+(i+len(o.Lang))%2]) // a rendering export or a define-only export
 				}
 			}
 		case "set":
@@ -363,7 +394,7 @@ func TestC15(t *testing.T) {
 			}
 		}
 	}
-	c.rapidStage("sequences", pick(3000, 60000), func(rt *rapid.T) {
+	c.rapidStage("sequences", pick(3000, 300000), func(rt *rapid.T) {
 		ver := rapid.SampledFrom([]int{2, 3}).Draw(rt, "version")
 		var cs opsCase
 		var cl []string
